@@ -347,6 +347,18 @@ pub fn generate(s: &mut Session, thorough: bool) -> bool {
             check_event(s, &mut rng, &mut cx, "simulated-multi-track", run, &banks);
         }
     }
+    // (iv-b) history on one thread: events with one wide block of contiguous wires, a wider one before a
+    // narrower one and vice versa. Every event is computed on this (long-lived) thread, on 4 fresh
+    // threads and in fresh processes; a solver that keeps anything from an earlier, larger block
+    // (seed C11-6 cached the Cholesky factor of the largest block seen) gives different last bits here.
+    for run in [u32::MAX, 11084] {
+        let Some(g) = c09::Geometry::new(run) else { continue };
+        for (start, len) in [(10usize, 40usize), (100, 24), (200, 64), (30, 20), (60, 33), (250, 17), (0, 48), (128, 18)] {
+            let spec: Spec = g.block_event(&mut rng, start, len, 260);
+            let banks = c10::spec_banks(&mut rng, &spec);
+            check_event(s, &mut rng, &mut cx, "block-history", run, &banks);
+        }
+    }
     // (v) fresh processes: 3 children recompute every original event
     let dir = std::env::temp_dir().join(format!("verif-c11-{}", std::process::id()));
     let _ = std::fs::create_dir_all(&dir);
